@@ -135,6 +135,39 @@ theorem route_correct (fs : List Frame) (hwf : ∀ f ∈ fs, f.WF) (chunks : Lis
     dispatchedTo c (chunks.foldl feed init) = fs.filter (fun f => f.chan = c) := by
   unfold dispatchedTo; rw [(feed_any_chunking fs hwf chunks h).1]
 
+/-- **A re-opened connection understands its new stream**, whatever the old one left behind: after `IO.open`
+    on the same object, in any state `s` (an arbitrary partial frame in the carry-over), any chunking of a complete
+    stream `fs` dispatches exactly `fs` after what had been dispatched before, and leaves nothing over. -/
+theorem reopen_stream_understood (s : RdState) (fs : List Frame) (hwf : ∀ f ∈ fs, f.WF) (chunks : List Bytes)
+    (h : chunks.flatten = encodeAll fs) :
+    (chunks.foldl feed (reopen s)).out = s.out ++ fs ∧ (chunks.foldl feed (reopen s)).buf = [] := by
+  have hr : reopen s = { buf := [], out := s.out } := by
+    have : Gen.Parse.openResetsCarry = true := by decide
+    simp [reopen, this]
+  rw [hr]
+  by_cases hc : chunks = []
+  · subst hc
+    simp only [List.flatten_nil] at h
+    have : fs = [] := by
+      rcases fs with _ | ⟨f, fs⟩
+      · rfl
+      · have := congrArg List.length h; simp [encodeAll, Frame.encode_length] at this; omega
+    subst this; simp
+  · obtain ⟨n', k1, _, k3, k4⟩ := feed_general chunks fs hwf { buf := [], out := s.out } [] (by simp [h])
+    have k4 := k4 hc
+    simp only [List.nil_append, List.append_nil] at k1 k3
+    have hdrop : fs.drop n' = [] := by
+      rcases hd : fs.drop n' with _ | ⟨g, gs⟩
+      · rfl
+      · have hl := k4.1 g (by rw [hd]; rfl)
+        rw [k3, hd] at hl
+        simp [encodeAll] at hl; omega
+    refine ⟨?_, k4.2 hdrop⟩
+    rw [k1]
+    have : fs.take n' = fs := by
+      have := List.take_append_drop n' fs; rw [hdrop, List.append_nil] at this; exact this
+    rw [this]
+
 /-- `route` sends a frame to channel 0, to its registered channel, or nowhere -/
 theorem route_spec (reg : List Nat) (f : Frame) :
     (f.chan = 0 → route reg f = .chan0) ∧
